@@ -61,6 +61,7 @@ ASSUME GrammarClosed
 ASSUME TablesInjective
 ASSUME MutationsSound
 ASSUME Emit => PrintT(<< "HDR", ToJson(HeaderCases) >>)
+ASSUME Emit => PrintT(<< "WCASES", ToJson(Unrepresentable) >>)
 ASSUME Emit => PrintT(<< "CONST", ToJson([maxMoney |-> MaxMoney, pairs |-> Pairs,
                                           branchIds |-> [b \in BranchSet |-> BranchId(b)],
                                           groupIds |-> [v \in { "v3", "v4", "v5", "v6" } |-> GroupId(v)]]) >>)
